@@ -945,6 +945,9 @@ def main(run):
     ra = run.explore('pinmodel', ca, run_case, budget_s=120)
     rb = run.explore('region', cb, run_case, budget_s=300, chunksize=1)
     run.explore('siblings', cases_c(run.tier), run_case, budget_s=300, chunksize=1)
+    # the csv dump of this property's field: every row is the recorded field of that assembly at that plane
+    from . import reports as _rep
+    run.explore('report-dumps', _rep.cases_dumps(run.tier), _rep.run_dumps_C13, budget_s=300)
     for res in ra + rb:
         for k in NOTE_KEYS:
             if res.get('info') and k in res['info']:
@@ -974,6 +977,9 @@ def main(run):
 
 
 def replay(body):
+    if str((body.get('scenario') or {}).get('probe', '')).startswith('report-'):
+        from . import reports
+        return reports.replay(body)
     r = guarded(run_case, body['scenario'], 600)
     for v in r['violations']:
         print('VIOLATION property=C13 replay=(inline) kind=%s site=%s %s observed=%s expected=%s tol=%s'
